@@ -265,9 +265,20 @@ def _top_schema(draw, g: Gate, name: str, names: list[str], idx: int) -> dict:
     if kind == "alias_prim":
         return _primitive(draw, g)
     if kind == "alias_array":
-        return {"type": "array", "items": _ref(draw(st.sampled_from(others))) if others and draw(st.booleans()) else _primitive(draw, g)}
+        items = _ref(draw(st.sampled_from(others))) if others and draw(st.booleans()) else _primitive(draw, g)
+        if g.flag(draw, "nested_array_alias", 1, 3):
+            clash = any(_cls(name) + "Item" == _cls(n) for n in names)
+            if clash and "prop_class_equals_schema_name" in g.exclude:
+                # the alias synthesised for the inner array (<Name>Item) equals a declared schema name (Order / OrderItem): C03-F04
+                g.excluded["prop_class_equals_schema_name"] += 1
+            else:
+                items = {"type": "array", "items": items}  # container of containers as the ROOT of a named model
+        return {"type": "array", "items": items}
     if kind == "map":
-        return {"type": "object", "additionalProperties": _ref(draw(st.sampled_from(others))) if others and draw(st.booleans()) else _primitive(draw, g)}
+        vals = _ref(draw(st.sampled_from(others))) if others and draw(st.booleans()) else _primitive(draw, g)
+        if g.flag(draw, "map_of_arrays", 1, 4):
+            vals = {"type": "array", "items": vals}
+        return {"type": "object", "additionalProperties": vals}
     if kind == "alias_ref":
         return _ref(draw(st.sampled_from(others)))
     if kind == "allof":
@@ -793,6 +804,10 @@ def specs(draw, gate: Gate | None = None, max_schemas: int = 5, max_ops: int = 4
     schemas: dict[str, Any] = {}
     for i, n in enumerate(names):
         schemas[n] = _top_schema(draw, g, n, names, i)
+    for n_, node_ in schemas.items():
+        # a component object schema that is itself nullable (arrays / maps / properties referring to it may then hold null)
+        if isinstance(node_, dict) and node_.get("type") == "object" and "properties" in node_ and g.flag(draw, "nullable_component", 1, 8):
+            node_["nullable"] = True
     _finish_discriminators(schemas, g)
     _dedupe_allof_keys(schemas)
     _unrequire_self_refs(schemas)
